@@ -453,3 +453,102 @@ func ruleC06Outermost(c *Ctx) {
 	}
 	c.R.Check(leaves, rule, "hit:first-wins", c.pos(hit), "the search stops at the first (outermost) hit", "the search continues after a hit: a later (inner) resource would override the outermost one")
 }
+
+func init() {
+	p := Properties["C06"]
+	p.Rules = append(p.Rules, Rule{"C06/fallback-to-lexical", ruleC06Fallback})
+}
+
+// When no resource in the dynamic scope declares the anchor, the initially
+// (lexically) resolved schema is the target: the "nothing found" outcome of the
+// search may fail only if there is no such schema, and the schema remembered for
+// that purpose is the resolver's result of the same call that produced the anchor name.
+func ruleC06Fallback(c *Ctx) {
+	const rule = "C06/fallback-to-lexical"
+	m := c.EvalModel(rule)
+	rm := c.resolverModel(rule)
+	if m == nil || rm == nil {
+		return
+	}
+	// the failure exit of the dynamic branch: an error return in the evaluator guarded by dynamicRefAnchor != ""
+	// must also be guarded by the absence of a lexical fallback
+	n := 0
+	core.EachInstr(m.E, func(i ssa.Instruction) {
+		call, ok := i.(*ssa.Call)
+		if !ok || core.CalleeKey(&call.Call) != "fmt.Errorf" {
+			return
+		}
+		mentions := false
+		for _, a := range call.Call.Args {
+			if c.mentionsField(a, "resolvedInfo.dynamicRefAnchor", 8) {
+				mentions = true
+			}
+			if sl, ok := a.(*ssa.Slice); ok {
+				if arr, ok := sl.X.(*ssa.Alloc); ok && arr.Referrers() != nil {
+					for _, r := range *arr.Referrers() {
+						if ia, ok := r.(*ssa.IndexAddr); ok && ia.Referrers() != nil {
+							for _, r2 := range *ia.Referrers() {
+								if st, ok := r2.(*ssa.Store); ok && c.mentionsField(st.Val, "resolvedInfo.dynamicRefAnchor", 8) {
+									mentions = true
+								}
+							}
+						}
+					}
+				}
+			}
+		}
+		if !mentions {
+			return
+		}
+		n++
+		viaFallback := false
+		for _, g := range guardsOf(call) {
+			x, k, equal, ok := eqConst(g)
+			if !ok || !k.IsNil() || !equal {
+				continue
+			}
+			// the tested value can be the lexical fallback
+			for _, s := range traceSourcesPhi(x) {
+				if ld, ok := s.val.(*ssa.UnOp); ok {
+					if fa, ok := ld.X.(*ssa.FieldAddr); ok && c.ownerName(fa.X.Type()) == "resolvedInfo" && isPointer(ld.Type()) && c.isPkgNamed(ld.Type(), "Schema") {
+						viaFallback = true
+					}
+				}
+			}
+		}
+		c.R.Check(viaFallback, rule, "search-miss:falls-back", c.pos(call), "the search fails only when there is no lexically resolved schema to fall back to", "when no resource on the evaluation stack declares the dynamic anchor the evaluator fails (\"missing dynamic anchor\") instead of using the initially resolved schema: a $dynamicRef such as \"other.json#name\" evaluated before other.json was entered cannot be validated")
+	})
+	c.R.Floor(rule, "failure exits of the dynamic search", n, 1)
+	// the fallback stored at resolution is the same resolver result as the anchor name
+	okStore := false
+	for _, fn := range c.Closure(rule, "RES").Minus(c.Closure(rule, "EV")).Sorted() {
+		var anchorSt, fbSt *ssa.Store
+		core.EachInstr(fn, func(i ssa.Instruction) {
+			st, ok := i.(*ssa.Store)
+			if !ok {
+				return
+			}
+			fa, ok := st.Addr.(*ssa.FieldAddr)
+			if !ok || c.ownerName(fa.X.Type()) != "resolvedInfo" {
+				return
+			}
+			name := core.StructField(fa.X.Type(), fa.Field).Name()
+			if name == "dynamicRefAnchor" {
+				anchorSt = st
+			}
+			if ex, ok := st.Val.(*ssa.Extract); ok && ex.Index == 0 && name != "resolvedRef" && name != "resolvedDynamicRef" {
+				if call, ok := ex.Tuple.(*ssa.Call); ok && call.Call.StaticCallee() == rm.refFn {
+					fbSt = st
+				}
+			}
+		})
+		if anchorSt != nil && fbSt != nil {
+			a, ok1 := anchorSt.Val.(*ssa.Extract)
+			b, ok2 := fbSt.Val.(*ssa.Extract)
+			if ok1 && ok2 && a.Tuple == b.Tuple && anchorSt.Block() == fbSt.Block() {
+				okStore = true
+			}
+		}
+	}
+	c.R.Check(okStore, rule, "fallback:stored-with-anchor", "", "the lexically resolved schema is remembered together with the anchor name (same resolver call, same branch)", "resolution does not remember the lexically resolved schema of a dynamically behaving $dynamicRef next to its anchor name")
+}
